@@ -130,18 +130,20 @@ Definition minus_ii (a b : Z) : res :=
     else (0 <? b) && (0 <? c) in
   if overflowed then RFloat (i2f a - i2f b)%float else RInt c.
 
-(* 9223372036854774784.0 = 2^63 - 1024, the largest double below 2^63 (Example times_threshold_value in Proofs.v) *)
-Definition times_threshold : float := 0x1.fffffffffffffp+62%float.
+(* uint64 magnitude of an int64:  u := uint64(a); if a < 0 { u = -u }   (= |a|, also for -2^63: lemma umag_abs) *)
+Definition umag (a : Z) : Z := if a <? 0 then (- (a mod two64)) mod two64 else a mod two64.
 
+(* times_n_ii (repaired: /repo fix "int * int is exact whenever the product fits"): hi, lo := bits.Mul64(|a|, |b|); a product of
+   operands with different signs fits iff its magnitude is <= 2^63, any other iff it is < 2^63; int64(-lo) / int64(lo);
+   otherwise the float product of the converted operands *)
 Definition times_ii (a b : Z) : res :=
-  let c := (i2f a * i2f b)%float in
-  if (times_threshold <? PrimFloat.abs c)%float then RFloat c
+  let p := umag a * umag b in
+  let hi := p / two64 in
+  let lo := p mod two64 in
+  if negb (Bool.eqb (a <? 0) (b <? 0)) then
+    (if (hi =? 0) && (lo <=? two63) then RInt (wrap64 ((- lo) mod two64)) else RFloat (i2f a * i2f b)%float)
   else
-    (* the float product can round down to the threshold while the exact product is just above 2^63 - 1:
-       the integer product is verified by dividing it back *)
-    let p := wrap64 (a * b) in
-    if negb (a =? 0) && (negb (go_quot p a =? b) || ((a =? -1) && (b =? min_int64))) then RFloat c
-    else RInt p.
+    (if (hi =? 0) && (lo <? two63) then RInt (wrap64 lo) else RFloat (i2f a * i2f b)%float).
 
 Definition divide_ii (a b : Z) : res :=
   if b =? 0 then RFloat (i2f a / i2f b)%float
@@ -209,8 +211,6 @@ Definition apply_ufun (u : ufun) (x : float) : float :=
   match u with
   | FAbs => PrimFloat.abs x | FCeil => f_ceil x | FFloor => f_floor x | FRound => f_round x | FSgn => f_sgn x
   end.
-(* uint64 magnitude of an int64:  u := uint64(a); if a < 0 { u = -u }   (= |a|, also for -2^63: lemma umag_abs) *)
-Definition umag (a : Z) : Z := if a <? 0 then (- (a mod two64)) mod two64 else a mod two64.
 
 (* BIF_abs/ceil/floor/round/sgn on MT_INT: abs_n_i, identity_i_i, sgn_i_i -- integer arithmetic, no float64 round trip;
    abs of the minimum int64 overflows to the float 2^63.  math_unary_f_f: f(x) *)
